@@ -361,7 +361,24 @@ func (h *Hist) scan(faults map[int]bool, failDesc map[string]bool) (string, erro
 	h.buildErr = nil
 	var runErr error
 	outcome := protect(func() error { runErr = h.ctl.RunOnce(); return runErr })
-	if outcome == "fatal:rebuild-failed" && h.buildErr == nil {
+	if outcome == "fatal:rebuild-failed" || outcome == "fatal:group-missing" {
+		// a generic error from RunOnce is classified by what the harness knows about the world, not by its text
+		missing := false
+		for _, c := range h.cfgs {
+			if g, ok := h.aws.asgs[c.CloudProviderGroupName]; !ok || g.Gone {
+				missing = true
+			}
+		}
+		switch {
+		case h.buildErr != nil:
+			outcome = "fatal:rebuild-failed"
+		case missing:
+			outcome = "fatal:group-missing"
+		default:
+			outcome = "fatal:unexpected"
+		}
+	}
+	if outcome == "fatal:unexpected" {
 		// RunOnce returned an error that is neither not-in-group, nor a missing cloud group, nor a failed provider rebuild
 		msg := runErr.Error()
 		if len(msg) > 80 {
